@@ -128,7 +128,7 @@ def _sympath():
     return SYMPATH[0]
 
 
-def _symx_call(obj, name, *args, **kw):
+def _symx_call(obj, name, /, *args, **kw):
     if name == "join" and isinstance(obj, str) and len(args) == 1 and type(args[0]) not in (list, tuple):
         args = (list(args[0]),)       # a generator must be materialised before we can see whether it yields proxies
     if not _any_sym(obj, args, kw):
